@@ -41,7 +41,7 @@ var c11FloatPool = []string{"0", "-0", "1", "1.5", "-2.25", "1e3", "1E3", ".5", 
 	"inf", "Inf", "+Inf", "-inf", "infinity", "-Infinity", "nan", "NaN", "-nan", "0x1p-2", "0x1.8p1", "0x1p1024", "0x.8p0", "0x1", "1p3",
 	"16777217", "9007199254740993", "0.1", "0.30000000000000004", "1e+3", "1e-3", "--1", "1.5.2", "1e1e1", "١٢٣"}
 
-var c11DurPool = []string{"0", "1s", "-5m", "1h30m", "100ms", "1.5h", ".5s", "1h2m3s4ms5us6ns", "1µs", "1μs", "+3s", "5", "", "abc", "1x", "1d", "1 s", "1s ",
+var c11DurPool = []string{"0", "1s", "-5m", "-.5s", "-.25h", "-1.5h", "1h30m", "100ms", "1.5h", ".5s", "1h2m3s4ms5us6ns", "1µs", "1μs", "+3s", "5", "", "abc", "1x", "1d", "1 s", "1s ",
 	"2562047h47m16.854775807s", "2562047h47m16.854775808s", "9223372036854775807ns", "9223372036854775808ns", "-9223372036854775808ns", "-9223372036854775809ns",
 	"2562048h", "106751d", "1e3s", "1h-1m", "--1s", "1.s", ".s", "0.000000001s", "0.0000000001s"}
 
@@ -209,9 +209,21 @@ func genC11(t *rapid.T) *C11Case {
 		}
 	}
 	c.LateChoices = len(c.Choices) > 0 && rapid.IntRange(0, 3).Draw(t, "lateChoices") == 0
-	c.Via = []string{"arg", "default", "env"}[weighted(t, "via", []int{6, 2, 2})]
+	c.Via = []string{"arg", "default", "env", "sep"}[weighted(t, "via", []int{6, 2, 2, 2})]
 	if k.IsFunc() || (k == KTri && c.Via == "default") {
 		c.Via = "arg"
+	}
+	if c.Via == "sep" {
+		// the value as a separate token (--opt VALUE): a token starting with a
+		// dash is only taken as the value when it is a negative number of the
+		// option's (signed numeric) type; other such texts stay with --opt=VALUE
+		for _, tx := range append(append([]string{}, c.More...), c.Value) {
+			if strings.HasPrefix(tx, "-") {
+				if _, ver := RefOne(k, c.Base, tx); !(k.IsSignedNum() && ver == Accept && len(tx) > 1) {
+					c.Via = "arg"
+				}
+			}
+		}
 	}
 	if c.Via == "arg" && rapid.IntRange(0, 6).Draw(t, "optionalArg") == 0 {
 		ov := genValidText(t, k, c.Base)
@@ -269,6 +281,10 @@ func c11Oracle(c *C11Case) string {
 	case "arg":
 		for _, tx := range texts {
 			args = append(args, "--opt="+tx)
+		}
+	case "sep":
+		for _, tx := range texts {
+			args = append(args, "--opt", tx)
 		}
 	case "env":
 		env = map[string]string{"VPC11_OPT": strings.Join(texts, ",")}
